@@ -137,6 +137,7 @@ fn learn_epoch(&mut self, batches: &Vec<(&[&tensor::Tensor], &[&tensor::Tensor])
         *final(self) == after_groups(*old(self), epoch, batches@, batches@.len() as int), //@ob one_step_per_group_on_the_summed_gradients
         // the reported loss: mean over the groups of the mean per-sample loss
         final(train_loss)@ == old(train_loss)@.push(fdiv(loss_sum(*old(self), epoch, batches@, batches@.len() as int), usize_as_f32_spec(batches@.len() as usize))), //@ob reported_loss_is_mean_of_group_means
+        n_layers(*final(self)) == n_layers(*old(self)),
 {
     broadcast use {f32_total};
     proof { f32_obeys(); }
@@ -146,7 +147,7 @@ fn learn_epoch(&mut self, batches: &Vec<(&[&tensor::Tensor], &[&tensor::Tensor])
     //@loop 1
             invariant
                 ${GROUPS}
-                n_layers(*self) >= 1,
+                n_layers(*self) >= 1, n_layers(*self) == n_layers(net0),
                 *self == after_groups(net0, epoch, batches@, __ix1 as int), //@ob one_step_per_group_on_the_summed_gradients.inv
                 loss_epoch == loss_sum(net0, epoch, batches@, __ix1 as int), //@ob reported_loss_is_mean_of_group_means.inv
                 train_loss@ == old(train_loss)@,
@@ -219,6 +220,201 @@ fn learn_epoch(&mut self, batches: &Vec<(&[&tensor::Tensor], &[&tensor::Tensor])
                     assert(weight_gradients@ =~= sum_w(net, xs, ys, n));
                     assert(bias_gradients@ =~= sum_b(net, xs, ys, n));
                 }
+    //@end
+    //@endbody
+}
+}
+//@endunit
+
+// ---- the whole of Network::learn: epoch loop, histories and early stopping (C13) around the verified epoch region (C04) -------------
+pub uninterp spec fn with_training(n: Network, on: bool) -> Network;
+pub uninterp spec fn validate_of(n: Network, xs: Seq<&Tensor>, ys: Seq<&Tensor>, tol: f32) -> (f32, f32);
+pub uninterp spec fn chunks_of<'a>(xs: Seq<&'a Tensor>, ys: Seq<&'a Tensor>, batch: usize) -> Seq<(&'a [&'a Tensor], &'a [&'a Tensor])>;
+impl Network {
+    // ASSUMED for the two flag-setting statement regions of learn (C09 decides what they do to the flags; they touch nothing else)
+    #[verifier::external_body]
+    fn set_training(&mut self, on: bool) ensures *final(self) == with_training(*old(self), on), n_layers(*final(self)) == n_layers(*old(self)) { }
+    // ASSUMED: validate() returns a function of the network and the data and leaves the network as it found it (C09: flags restored; C12: what it returns)
+    #[verifier::external_body]
+    pub fn validate(&mut self, inputs: &[&Tensor], targets: &[&Tensor], tol: f32) -> (r: (f32, f32))
+        ensures r == validate_of(*old(self), inputs@, targets@, tol), *final(self) == *old(self)
+    { unimplemented!() }
+}
+// ASSUMED for the group-splitting statement (bounded Kani harness c04_batches_partition on the verbatim statement): no empty group
+#[verifier::external_body]
+fn chunk_pairs<'a>(inputs: &'a Vec<&'a Tensor>, targets: &'a Vec<&'a Tensor>, batch: usize) -> (r: Vec<(&'a [&'a Tensor], &'a [&'a Tensor])>)
+    ensures r@ == chunks_of(inputs@, targets@, batch), forall|k: int| 0 <= k < r@.len() ==> (#[trigger] r@[k]).0@.len() >= 1 && r@[k].1@.len() >= 1
+{ unimplemented!() }
+
+pub open spec fn fle(a: f32, b: f32) -> bool { a.partial_cmp_spec(&b) == Some(core::cmp::Ordering::Less) || a.partial_cmp_spec(&b) == Some(core::cmp::Ordering::Equal) }
+// non-NaN floats are totally ordered: not (a <= b) is a > b  (IEEE-754; also put to CBMC over all bit patterns, harness f1_total_order)
+pub broadcast axiom fn f32_total_order(a: f32, b: f32)
+    requires !f32_is_nan_spec(a), !f32_is_nan_spec(b)
+    ensures #[trigger] fle(a, b) <==> !fgt(a, b);
+
+/// the network after e full epochs (step number of epoch t is t), groups walked in order every time
+pub open spec fn after_epochs(net: Network, bs: Seq<(&[&Tensor], &[&Tensor])>, e: int) -> Network
+    decreases e
+{ if e <= 0 { net } else { after_groups(after_epochs(net, bs, e - 1), e as i32, bs, bs.len() as int) } }
+pub open spec fn train_loss_at(net: Network, bs: Seq<(&[&Tensor], &[&Tensor])>, t: int) -> f32 {
+    fdiv(loss_sum(after_epochs(net, bs, t), (t + 1) as i32, bs, bs.len() as int), usize_as_f32_spec(bs.len() as usize))
+}
+/// property C13: more than `tol` epochs have run and the validation loss strictly increased throughout the last `tol` recorded epochs
+pub open spec fn should_stop(val: Seq<f32>, e: int, tol: int) -> bool {
+    e > tol && forall|k: int| e - tol <= k < e - 1 ==> fgt(#[trigger] val[k + 1], val[k])
+}
+
+proof fn lemma_stop(val: Seq<f32>, hist: Seq<&f32>, e: int, th: int)
+    requires 1 <= th < e, e == val.len(), hist.len() == th,
+        forall|q: int| 0 <= q < th ==> *(#[trigger] hist[q]) == val[e - 1 - q],
+        forall|t: int| 0 <= t < e ==> !f32_is_nan_spec(#[trigger] val[t]),
+    ensures (forall|q: int| 0 <= q < th - 1 ==> !fle(*(#[trigger] hist[q]), *hist[q + 1])) <==> should_stop(val, e, th)
+{
+    broadcast use f32_total_order;
+    if forall|q: int| 0 <= q < th - 1 ==> !fle(*(#[trigger] hist[q]), *hist[q + 1]) {
+        assert forall|k: int| e - th <= k < e - 1 implies fgt(#[trigger] val[k + 1], val[k]) by {
+            let q = e - 2 - k;
+            assert(!fle(*hist[q], *hist[q + 1]));
+            assert(*hist[q] == val[k + 1] && *hist[q + 1] == val[k]);
+            assert(fle(val[k + 1], val[k]) <==> !fgt(val[k + 1], val[k]));
+        }
+    }
+    if should_stop(val, e, th) {
+        assert forall|q: int| 0 <= q < th - 1 implies !fle(*(#[trigger] hist[q]), *hist[q + 1]) by {
+            let k = e - 2 - q;
+            assert(fgt(val[k + 1], val[k]));
+            assert(*hist[q] == val[k + 1] && *hist[q + 1] == val[k]);
+            assert(fle(val[k + 1], val[k]) <==> !fgt(val[k + 1], val[k]));
+        }
+    }
+}
+
+proof fn lemma_stop_prefix(v1: Seq<f32>, v2: Seq<f32>, e: int, th: int)
+    requires e <= v1.len(), e <= v2.len(), forall|k: int| 0 <= k < e ==> v1[k] == v2[k], th >= 1
+    ensures should_stop(v1, e, th) == should_stop(v2, e, th)
+{
+    if e > th {
+        if should_stop(v1, e, th) { assert forall|k: int| e - th <= k < e - 1 implies fgt(#[trigger] v2[k + 1], v2[k]) by { assert(fgt(v1[k + 1], v1[k])); } }
+        if should_stop(v2, e, th) { assert forall|k: int| e - th <= k < e - 1 implies fgt(#[trigger] v1[k + 1], v1[k]) by { assert(fgt(v2[k + 1], v2[k])); } }
+    }
+}
+
+//@def LEARN_CTX
+                1 <= epochs < 0x7fff_ffff, bs == batches@, n_layers(*self) >= 1,
+                forall|k: int| 0 <= k < batches@.len() ==> (#[trigger] batches@[k]).0@.len() >= 1 && batches@[k].1@.len() >= 1,
+                threshold == (match validation { Some(v) => Some(v.2), None => None::<i32> }),
+                validation is Some ==> validation->Some_0.2 >= 1,
+                forall|m: Network| validation is Some ==> !f32_is_nan_spec(#[trigger] validate_of(m, validation->Some_0.0@, validation->Some_0.1@, 1e-6f32).0),
+//@end
+//@def HISTORIES
+                train_loss@.len() == done, *self == after_epochs(net1, bs, done),
+                forall|t: int| 0 <= t < done ==> #[trigger] train_loss@[t] == train_loss_at(net1, bs, t), //@ob one_training_loss_per_epoch.inv
+                validation is Some ==> val_loss@.len() == done && val_acc@.len() == done,
+                validation is None ==> val_loss@.len() == 0 && val_acc@.len() == 0,
+                forall|t: int| validation is Some && 0 <= t < done ==> #[trigger] val_loss@[t] == validate_of(after_epochs(net1, bs, t + 1), validation->Some_0.0@, validation->Some_0.1@, 1e-6f32).0, //@ob validation_entries.inv
+                forall|t: int| validation is Some && 0 <= t < done ==> #[trigger] val_acc@[t] == validate_of(after_epochs(net1, bs, t + 1), validation->Some_0.0@, validation->Some_0.1@, 1e-6f32).1, //@ob validation_entries.inv
+//@end
+
+//@unit learn.whole prop=C13,C04 search=learn.schedule
+impl Network {
+pub fn learn(
+    &mut self,
+    inputs: &Vec<&tensor::Tensor>,
+    targets: &Vec<&tensor::Tensor>,
+    validation: Option<(&Vec<&tensor::Tensor>, &Vec<&tensor::Tensor>, i32)>,
+    batch: usize,
+    epochs: i32,
+    print: Option<i32>,
+) -> (r: (Vec<f32>, Vec<f32>, Vec<f32>))
+    requires
+        1 <= epochs < 0x7fff_ffff,
+        n_layers(*old(self)) >= 1,
+        // C13's quantifier: tolerances >= 1, validation-loss trajectories of real numbers (no NaN)
+        validation is Some ==> validation->Some_0.2 >= 1,
+        forall|m: Network| validation is Some ==> !f32_is_nan_spec(#[trigger] validate_of(m, validation->Some_0.0@, validation->Some_0.1@, 1e-6f32).0),
+        //@requires-extra
+    ensures
+        // one training-loss entry per epoch actually run (C13) - and each is the mean of the group means of that epoch (C04)
+        1 <= r.0@.len() <= epochs, //@ob between_one_and_the_requested_epochs
+        forall|t: int| 0 <= t < r.0@.len() ==> #[trigger] r.0@[t] == train_loss_at(with_training(*old(self), true), chunks_of(inputs@, targets@, batch), t), //@ob one_training_loss_per_epoch
+        // exactly as many validation entries, none without validation data
+        validation is Some ==> r.1@.len() == r.0@.len() && r.2@.len() == r.0@.len(), //@ob as_many_validation_entries
+        validation is None ==> r.1@.len() == 0 && r.2@.len() == 0 && r.0@.len() == epochs, //@ob without_validation_all_epochs_run
+        // stops early only if the predicate holds, and never runs past the first epoch at which it holds
+        validation is Some && r.0@.len() < epochs ==> should_stop(r.1@, r.0@.len() as int, validation->Some_0.2 as int), //@ob stops_early_only_if_increasing
+        forall|e: int| validation is Some && 1 <= e < r.0@.len() ==> !should_stop(r.1@, e, validation->Some_0.2 as int), //@ob never_continues_past_the_first_stop
+        // the network: after every epoch run, steps numbered by the epoch (C04), dropout flags off again
+        *final(self) == with_training(after_epochs(with_training(*old(self), true), chunks_of(inputs@, targets@, batch), r.0@.len() as int), false), //@ob epochs_numbered_from_one
+{
+    broadcast use {f32_total};
+    proof { f32_obeys(); }
+    //@body file=src/network.rs impl=Network fn=learn part=whole rewrites=R13,R30 loops=3
+    //@outline unit=learn.epoch call="self.learn_epoch(&batches, epoch, &mut train_loss);"
+    //@assume-region /self\.layers\.iter_mut\(\)\.for_each\(\|layer\| match layer \{/../\}\);/ call="self.set_training(true);" why="sets the training flag of every layer (C09's regions), touches nothing else"
+    //@assume-region /for layer in &mut self\.layers \{/../for layer in &mut self\.layers \{/ call="self.set_training(false);" why="clears the training flag of every layer (C09's regions), touches nothing else"
+    //@assume-region /let batches: Vec</../^\s*\.collect\(\);/ call="let batches = chunk_pairs(inputs, targets, batch);" why="ordered split into consecutive groups (bounded Kani harness c04_batches_partition); only non-emptiness of the groups is used"
+    //@skip /if let Some\(print\) = print \{/../if let Some\(print\) = print \{/ #1
+    //@skip /if let Some\(print\) = print \{/../if let Some\(print\) = print \{/ #2
+    //@skip /println!\("Validation loss has increased/../println!/
+    //@type train_loss = Vec<f32>
+    //@type val_loss = Vec<f32>
+    //@type val_acc = Vec<f32>
+    //@after /let batches = chunk_pairs/
+        let ghost net1 = *self;
+        let ghost bs = batches@;
+    //@end
+    //@loop 1
+            invariant_except_break
+                train_loss@.len() == epoch - 1, *self == after_epochs(net1, bs, epoch - 1),
+                forall|t: int| 0 <= t < epoch - 1 ==> #[trigger] train_loss@[t] == train_loss_at(net1, bs, t),
+                validation is Some ==> val_loss@.len() == epoch - 1 && val_acc@.len() == epoch - 1,
+                validation is None ==> val_loss@.len() == 0 && val_acc@.len() == 0,
+                forall|t: int| 0 <= t < val_loss@.len() ==> !f32_is_nan_spec(#[trigger] val_loss@[t]),
+                forall|e: int| validation is Some && 1 <= e <= epoch - 1 ==> !should_stop(val_loss@, e, validation->Some_0.2 as int),
+            invariant
+                ${LEARN_CTX}
+            ensures
+                1 <= train_loss@.len() <= epochs, //@ob between_one_and_the_requested_epochs.inv
+                *self == after_epochs(net1, bs, train_loss@.len() as int), //@ob epochs_numbered_from_one.inv
+                forall|t: int| 0 <= t < train_loss@.len() ==> #[trigger] train_loss@[t] == train_loss_at(net1, bs, t), //@ob one_training_loss_per_epoch.inv
+                validation is Some ==> val_loss@.len() == train_loss@.len() && val_acc@.len() == train_loss@.len(), //@ob as_many_validation_entries.inv
+                validation is None ==> val_loss@.len() == 0 && val_acc@.len() == 0 && train_loss@.len() == epochs, //@ob without_validation_all_epochs_run.inv
+                validation is Some && train_loss@.len() < epochs ==> should_stop(val_loss@, train_loss@.len() as int, validation->Some_0.2 as int), //@ob stops_early_only_if_increasing.inv
+                forall|e: int| validation is Some && 1 <= e < train_loss@.len() ==> !should_stop(val_loss@, e, validation->Some_0.2 as int), //@ob never_continues_past_the_first_stop.inv
+    //@end
+    //@before /if history\[i\] /
+                        proof { f32_obeys(); }
+    //@end
+    //@before /self\.learn_epoch\(/
+            let ghost vl0 = val_loss@;
+    //@end
+    //@before /if let Some\(threshold\) = threshold \{/
+            proof {
+                if validation is Some {
+                    assert forall|e: int| 1 <= e <= epoch - 1 implies !should_stop(val_loss@, e, validation->Some_0.2 as int) by {
+                        lemma_stop_prefix(vl0, val_loss@, e, validation->Some_0.2 as int);
+                    }
+                }
+            }
+    //@end
+    //@before /if increasing \{/
+                    proof {
+                        lemma_stop(val_loss@, history@, epoch as int, threshold as int);
+                    }
+    //@end
+    //@loop 2
+            invariant
+                __n == threshold as usize, threshold >= 1, epoch > threshold, val_loss@.len() == epoch, history@.len() == __r,
+                forall|q: int| 0 <= q < __r ==> *(#[trigger] history@[q]) == val_loss@[epoch - 1 - q],
+    //@end
+    //@loop 3
+            invariant_except_break
+                increasing, forall|q: int| 0 <= q < i ==> !fle(*(#[trigger] history@[q]), *history@[q + 1]),
+            invariant
+                threshold >= 1, epoch > threshold, val_loss@.len() == epoch, history@.len() == threshold,
+                forall|q: int| 0 <= q < threshold ==> *(#[trigger] history@[q]) == val_loss@[epoch - 1 - q],
+            ensures
+                increasing <==> (forall|q: int| 0 <= q < threshold - 1 ==> !fle(*(#[trigger] history@[q]), *history@[q + 1])),
     //@end
     //@endbody
 }
